@@ -820,16 +820,20 @@ def parse_expansion(text, n_user_items=1):
         else:
             out["unknown"].append(render(it["all"]))
     # names of the user's own `async fn` methods: a dispatch arm must await exactly those
-    ua = []
+    ua, ur = [], []
     for it in items[:n_user_items]:
         if it.get("kw") == "impl" and it.get("body") is not None:
             for mi in split_items(it["body"].sub):
                 f = parse_fn(mi)
                 if f is not None and f.get("async"):
                     ua.append(f["name"])
+                if f is not None and (f.get("ret") or "").strip():
+                    ur.append(f["name"])
     out["user_async"] = ua
+    out["user_ret"] = ur
     for mdl in out["models"]:
         mdl["user_async"] = ua
+        mdl["user_ret"] = ur
         analyse_model(mdl)
     return out
 
